@@ -9,7 +9,7 @@ import (
 
 // CorruptKinds are the single-field corruptions of a valid block. Whether the result is
 // header-invalid, body-invalid, future or (rarely) still valid is decided by the twin.
-var CorruptKinds = []string{"nonce", "ts-past", "ts-future", "parent", "payout", "commitment", "sig", "dup-txn", "height", "drop-payout"}
+var CorruptKinds = []string{"nonce", "ts-past", "ts-future", "parent", "parent-zero", "payout", "commitment", "sig", "dup-txn", "height", "drop-payout"}
 
 // OrphanParent is the model id used for the parent of a block whose ParentID is unknown.
 const OrphanParent = 999999
@@ -49,6 +49,9 @@ func (t *Tree) Corrupt(rng *vh.RNG, i int, kind string) int {
 		var id types.BlockID
 		rng.Bytes(id[:])
 		blk.ParentID = id
+	case "parent-zero":
+		// the zero id is the parent of genesis: the store holds a state for it
+		blk.ParentID = types.BlockID{}
 	case "payout":
 		blk.MinerPayouts[0].Value = blk.MinerPayouts[0].Value.Add(types.NewCurrency64(1))
 	case "drop-payout":
@@ -107,10 +110,10 @@ func (t *Tree) Corrupt(rng *vh.RNG, i int, kind string) int {
 	default:
 		panic("unknown corruption " + kind)
 	}
-	if remine {
+	if remine && kind != "parent-zero" {
 		FindNonce(cs, &blk)
 	}
-	if kind == "parent" {
+	if kind == "parent" || kind == "parent-zero" {
 		// an orphan: its parent is unknown to every node
 		if _, ok := t.byHash[blk.ID()]; ok {
 			return -1
